@@ -162,6 +162,48 @@ func init() {
 		return f["macro-missing-arg"] > 0 || f["macro-surplus-arg"] > 0 || forms >= 2
 	})
 	p.Run = func(c *Ctx) {
+		// complete grid: parameters 0..4 x arguments 0..6 x the three call forms
+		idx := 0
+		done := true
+		for np := 0; np <= 4; np++ {
+			for na := 0; na <= 6; na++ {
+				for _, form := range []string{"self", "alias", "from"} {
+					idx++
+					if !c.Mine(idx) {
+						continue
+					}
+					mac := &m.N{K: "macro", S: "mm", Body: []*m.N{m.NText("mm(")}}
+					for i := 0; i < np; i++ {
+						pn := "p" + string(rune('0'+i))
+						mac.Names = append(mac.Names, pn)
+						mac.Body = append(mac.Body, m.NPrint(m.ECall("cat", m.EName(pn))))
+					}
+					mac.Body = append(mac.Body, m.NPrint(m.ECall("who")), m.NText(")"))
+					call := &m.E{K: "mcall", S: "mm", T: form, U: "lib"}
+					for i := 0; i < na; i++ {
+						call.A = append(call.A, m.ENum(float64(i+1)))
+					}
+					main := &m.Tpl{Name: "main"}
+					lib := &m.Tpl{Name: "lib", Body: []*m.N{mac}}
+					switch form {
+					case "self":
+						main.Body = append(main.Body, mac)
+					case "alias":
+						main.Body = append(main.Body, &m.N{K: "import", X: m.EStr("lib"), S: "lib"})
+					default:
+						call.U = "fm"
+						main.Body = append(main.Body, &m.N{K: "from", X: m.EStr("lib"), Pairs: [][2]string{{"mm", "fm"}}})
+					}
+					main.Body = append(main.Body, m.NText("["), m.NPrint(call), m.NText("]"),
+						&m.N{K: "set", S: "r", X: call}, m.NPrint(m.EBin("~", m.EName("r"), m.EStr("!"))), m.NPrint(m.EFilter("wrap", call)))
+					prog := &m.Program{Env: "core", Loader: "memory", Entry: "main", Tpls: []*m.Tpl{lib, main}}
+					if !sub.Check(c, &progCase{P: prog}) {
+						done = false
+					}
+				}
+			}
+		}
+		c.Ev.S.Exhaustive["params_x_args_x_forms_grid"] = done
 		sub.Rapid(c, c.Share(c.Pick(20000, 800000)), func(t *rapid.T) *progCase {
 			g := &gen.G{T: t, C: gen.Cfg{Calls: true, ExprDepth: 2}}
 			return &progCase{P: g.MacroProgram()}
